@@ -225,6 +225,17 @@ func Dispatch(
 		return nil, "", true, orderErr
 	}
 
+	// A GroupBy whose tags are exactly the entity is executed by the row path
+	// over a series-ordered scan (localIndexScan.Execute sets
+	// OrderByTypeSeries when groupByEntity holds). Ask storage for the same
+	// order so groups are met, emitted and windowed in the same sequence.
+	if groupByEntity(req, entityList) {
+		if indexOrder == nil {
+			indexOrder = &index.OrderBy{}
+		}
+		indexOrder.Type = index.OrderByTypeSeries
+	}
+
 	// Resolve the index.Query + entities the same way the row path does
 	// in unresolvedIndexScan.Analyze.
 	var query index.Query
@@ -340,6 +351,19 @@ func resolveOrderBy(reqOrder *modelv1.QueryOrder, schema logical.Schema) (*index
 		out.Type = index.OrderByTypeTime
 	}
 	return out, nil
+}
+
+// groupByEntity mirrors measure_analyzer.Analyze: the GroupBy tags, flattened
+// in request order, equal the entity tag list.
+func groupByEntity(req *measurev1.QueryRequest, entityList []string) bool {
+	if req.GetGroupBy() == nil {
+		return false
+	}
+	tags := make([]string, 0, len(entityList))
+	for _, tf := range req.GetGroupBy().GetTagProjection().GetTagFamilies() {
+		tags = append(tags, tf.GetTags()...)
+	}
+	return logical.StringSlicesEqual(entityList, tags)
 }
 
 // locateScan walks a vec plan tree to find the leaf Scan node. Today there
